@@ -88,6 +88,10 @@ func (v GVal) Go() any {
 		return fmtErr{v.S}
 	case "stackerr": // history records only (never a probe, never sent to the model): an errors.v3 error that carries its stack
 		return errorsv3.New(v.S)
+	case "attrsval": // direct-oracle corpus only: an attribute list given as the VALUE of a key
+		return slog.Attrs(attrsGo(v.Items))
+	case "groupval": // direct-oracle corpus only: a group attribute (named v.S) given as the VALUE of a key
+		return slog.NewGroupedAttr(v.S, attrsGo(v.Items)...)
 	case "bool":
 		return v.B
 	case "int":
